@@ -192,6 +192,27 @@ def run_case(P, scratch, backend_kind, nworkers, rng, flags=None, faults=None, k
                     fired['done'] = True
                     st.remove(hv)
                     lib.CALLS.append(('R', 'remove-result', victim, None, ''))
+            elif not fired['done'] and pend is not None and pend[0] == 'endOk' and pend[1] == task and what == 'pack-interrupted':
+                # somebody runs `jug pack` meanwhile and that process dies just before the new pack file is put in place (the last step of update_pack):
+                # nothing that was finished may be lost - the workers must not compute it again
+                fired['done'] = True
+                import jug.backends.file_store as _fsmod
+
+                class _Died(BaseException):
+                    pass
+
+                def _die(a, b, _pk=os.path.join('packs', 'jugpack')):
+                    if str(b).endswith(_pk):
+                        raise _Died()
+                    return _real_rename(a, b)
+                _real_rename = _fsmod.os.rename
+                _fsmod.os.rename = _die
+                try:
+                    be.store().update_pack()
+                except _Died:
+                    lib.CALLS.append(('R', 'pack-interrupted', None, None, ''))
+                finally:
+                    _fsmod.os.rename = _real_rename
             elif not fired['done'] and pend is not None and pend[0] == 'endOk' and pend[1] == task:
                 fired['done'] = True
                 st = be.store()
